@@ -347,7 +347,8 @@ def run_one(case, tmp):
         case["expect"][name] = new
     out = os.path.join(d, "out_models.py") if case["o"]["output_file"] else None
     argv = build_argv(case, "out_models.py" if out else None)
-    r = subprocess.run([PY, "-m", "json_to_models"] + argv, capture_output=True, text=True, cwd=d, env=child_env(), timeout=300)
+    from ..common import run_bounded
+    r = run_bounded([PY, "-m", "json_to_models"] + argv, timeout=120, capture_output=True, text=True, cwd=d, env=child_env())
     content = None
     if out and os.path.exists(out):
         with open(out, encoding="utf-8") as f:
@@ -361,13 +362,29 @@ def judge(case, d, argv, r, content):
     def W(mech, msg):
         wit.append({"property": PROP, "mechanism": mech, "msg": msg[:700]})
 
+    if getattr(r, "timed_out", False):
+        return None, {"reference_failed": "the CLI run did not finish within 120 s (case timeout)"}
     if r.returncode != 0:
         W(f"cli-fails-on-valid-input:{(r.stderr.strip().splitlines() or ['?'])[-1].split(':')[0]}", f"argv {argv}: exit {r.returncode}: {r.stderr[-300:]}")
         return wit, {}
+    import signal
+
+    class _RefTimeout(BaseException):
+        pass
+
+    def _alarm(signum, frame):
+        raise _RefTimeout()
+    old_handler = signal.signal(signal.SIGALRM, _alarm)
+    signal.setitimer(signal.ITIMER_REAL, 90)
     try:
         texts = ref_texts(case, d)
+    except _RefTimeout:
+        return None, {"reference_failed": "the library reference did not finish within 90 s (case timeout)"}
     except Exception as e:
         return None, {"reference_failed": f"{type(e).__name__}: {e}"}
+    finally:
+        signal.setitimer(signal.ITIMER_REAL, 0)
+        signal.signal(signal.SIGALRM, old_handler)
     cnt = {"cli_runs": 1, "reference_variants": len(texts), "files": len(case["files"]), "fmt_" + case["fmt"]: 1,
            "with_lookup": int(any(a[2] not in (None, "-") for a in case["args"])), "with_glob": int(any("*" in a[3] for a in case["args"])),
            "with_output_file": int(bool(case["o"]["output_file"])), "legacy_l": int(any(a[0] == "-l" for a in case["args"]))}
